@@ -788,6 +788,15 @@ func init() {
 	I["(*sync.RWMutex).Unlock"] = unlock(true)
 	I["(*sync.RWMutex).RLock"] = lock(false)
 	I["(*sync.RWMutex).RUnlock"] = unlock(false)
+	// github.com/sasha-s/go-deadlock wraps sync's mutexes (lock-order diagnostics only): same semantics
+	for _, pfx := range []string{"github.com/sasha-s/go-deadlock"} {
+		I["(*"+pfx+".Mutex).Lock"] = lock(true)
+		I["(*"+pfx+".Mutex).Unlock"] = unlock(true)
+		I["(*"+pfx+".RWMutex).Lock"] = lock(true)
+		I["(*"+pfx+".RWMutex).Unlock"] = unlock(true)
+		I["(*"+pfx+".RWMutex).RLock"] = lock(false)
+		I["(*"+pfx+".RWMutex).RUnlock"] = unlock(false)
+	}
 	I["(*sync.RWMutex).RLocker"] = func(in *Interp, fn *ssa.Function, a []Value) Value {
 		unsupported("RWMutex.RLocker")
 		return nil
